@@ -4,6 +4,7 @@ import (
 	"encoding/json"
 	"fmt"
 	"strings"
+	"sync/atomic"
 	"time"
 
 	"github.com/ohler55/slip"
@@ -131,6 +132,44 @@ func c17stress(args []string) {
 			ev["gen"] = h.V{"a": slip.ObjectString(a.Val), "aok": a.OK(), "bok": b.OK(), "early": early, "final": slip.ObjectString(final.Val)}
 			out.Emit(ev)
 			return
+		case "gencache2":
+			// the same history without the hook: the argument is an object of the harness whose Hierarchy() - asked for by the
+			// generic function while it works out the effective method, inside its critical section - waits at a gate
+			if o := h.Eval(s, fmt.Sprintf("(defgeneric c17gd%d (a)) (defmethod c17gd%d ((a real)) 'old) (defmethod c17gd%d ((a string)) 'str)", st.ID, st.ID, st.ID)); !o.OK() {
+				ev["st"] = "err:" + o.Msg
+				out.Emit(ev)
+				return
+			}
+			gate := &gateFix{paused: make(chan struct{}, 1), resume: make(chan struct{})}
+			gate.armed.Store(true)
+			slip.CurrentPackage.Set(fmt.Sprintf("c17gate%d", st.ID), gate)
+			aDone, bDone := make(chan h.Outcome, 1), make(chan h.Outcome, 1)
+			go func() { aDone <- h.Eval(s, fmt.Sprintf("(c17gd%d c17gate%d)", st.ID, st.ID)) }()
+			select {
+			case <-gate.paused:
+			case <-time.After(3 * time.Second):
+				ev["st"] = "the call never asked for the hierarchy of its argument"
+				gate.armed.Store(false)
+				out.Emit(ev)
+				return
+			}
+			go func() { bDone <- h.Eval(s, fmt.Sprintf("(defmethod c17gd%d ((a fixnum)) 'new)", st.ID)) }()
+			early := false
+			var b h.Outcome
+			select {
+			case b = <-bDone:
+				early = true
+			case <-time.After(40 * time.Millisecond):
+			}
+			close(gate.resume)
+			a := <-aDone
+			if !early {
+				b = <-bDone
+			}
+			final := h.Eval(s, fmt.Sprintf("(c17gd%d c17gate%d)", st.ID, st.ID))
+			ev["gen"] = h.V{"a": slip.ObjectString(a.Val), "aok": a.OK(), "bok": b.OK(), "early": early, "final": slip.ObjectString(final.Val)}
+			out.Emit(ev)
+			return
 		case "tables":
 			// the interpreter's own shared tables: variables, generic functions and their caches, the printer
 			fmt.Fprintf(&src, "(setq fin (make-channel %d)) (setq errs (make-channel %d))\n(defgeneric c17g%d (a))\n(defmethod c17g%d ((a fixnum)) (list 'fix a))\n",
@@ -208,4 +247,24 @@ func c17stress(args []string) {
 		}
 		out.Emit(ev)
 	})
+}
+
+// gateFix is an object that says it is a fixnum; the first time it is asked for its class hierarchy it waits at a gate.
+type gateFix struct {
+	armed  atomic.Bool
+	paused chan struct{}
+	resume chan struct{}
+}
+
+func (g *gateFix) String() string                    { return "#<gate-fixnum>" }
+func (g *gateFix) Append(b []byte) []byte            { return append(b, "#<gate-fixnum>"...) }
+func (g *gateFix) Simplify() any                     { return "#<gate-fixnum>" }
+func (g *gateFix) Equal(o slip.Object) bool          { return o == slip.Object(g) }
+func (g *gateFix) Eval(*slip.Scope, int) slip.Object { return g }
+func (g *gateFix) Hierarchy() []slip.Symbol {
+	if g.armed.CompareAndSwap(true, false) {
+		g.paused <- struct{}{}
+		<-g.resume
+	}
+	return slip.Fixnum(0).Hierarchy()
 }
